@@ -28,12 +28,13 @@ namespace PyPhysim.C05
     ran out while the runner still asked for a repetition; with a real program
     this is non-termination) -/
 inductive Err
-  | SkipThisOne | RuntimeError | ValueError | SyntaxError | KeyError | Exhausted
+  | SkipThisOne | RuntimeError | ValueError | SyntaxError | KeyError | TypeError | Exhausted
   deriving DecidableEq, Repr, Inhabited
 
 def Err.toString : Err → String
   | .SkipThisOne => "SkipThisOne" | .RuntimeError => "RuntimeError"
   | .ValueError => "ValueError" | .SyntaxError => "SyntaxError" | .KeyError => "KeyError"
+  | .TypeError => "TypeError"
   | .Exhausted => "Exhausted"
 instance : ToString Err := ⟨Err.toString⟩
 
